@@ -3,3 +3,23 @@ claim("C01",
  "Trusted: go/parser+go/types, the abstract interpreter's reading of Go statement semantics, the reference automaton (unit-tested against encoding/json), the assumption that callbacks do not mutate the parser. Undecidable arm shapes make the check exit 2 (ERROR), never pass.",
  "static analysis: table-driven machine extraction + abstract interpretation of switch arms + product fixpoint against an RFC 8259 reference automaton",
  "DESIGN.md §3 Engine A, §4 C01")
+claim("C03",
+ "Static decision of front-end agreement as acceptors and event sources under every chunking: the four JSON dispatch loops are explored in product with one reference automaton in single- and multi-document mode (agreement with a common reference implies pairwise agreement), with a buffer refill allowed between any two bytes and every length-guarded fast path explored both ways; value/token events must be emitted at the same byte with the same kind. For sen.Parser/sen.Tokenizer the structural sibling clause 'no action code without a case' is decided. Equality of value trees is not decided (values are outside the abstract domain).",
+ "Trusted: as C01. Known findings (sen.Tokenizer lacks arms for ( ) + and C comments) are listed in KNOWN_FINDINGS.txt by (mode, byte) key. JSON-subset-of-SEN acceptance is not claimed.",
+ "static analysis: machine extraction + product fixpoint with chunking non-determinism; event-synchrony comparison; dispatch-switch exhaustiveness over reachable table cells",
+ "DESIGN.md §3 Engine A, §4 C03")
+claim("C06",
+ "Static decision of the panic surface visible in the control state of the six table-driven front-ends (out-of-range index of a constant string or the container stack, buffer slice beyond len(buf), pop of an empty stack, endless re-dispatch, missing arm) for every reachable state and byte, plus call-graph / dominance lints for the other entry points (recover frames, unchecked type assertions). A necessary condition of C06, not the whole property: general index/nil safety over runtime data is out of reach.",
+ "Trusted: as C01; SEN front-ends are explored alone with over-approximated reachability. Explicit panic(...) is treated as a thrown error and checked by the recover-frame rule.",
+ "static analysis: abstract interpretation of dispatch arms to a reachability fixpoint; call-graph recover-frame reachability; dominance lint for unchecked assertions",
+ "DESIGN.md §3 Engines A and E, §4 C06")
+claim("C07",
+ "Static decision of read-before-reset for the control state of the six reusable front-ends: entries are interpreted from an all-stale state and the exploration reports any read of a stale control field or container stack on any machine path; plus reset-completeness rules for other carried fields. A necessary condition of 'behaves like a fresh instance'; behavioural equality itself is not decided.",
+ "Trusted: as C01. Fields kept as Top by the machine (scratch buffers, number parts) are covered by the def-use rules, not by the exploration.",
+ "static analysis: abstract interpretation from a stale initial state (definite assignment along machine paths); field def/use reset-completeness",
+ "DESIGN.md §3 Engines A and C, §4 C07")
+claim("C09",
+ "Static decision of the structural facts the reported position depends on: every in-loop error passes the cursor of the dispatched byte and is raised exactly where the reference dies; the cursor is exactly len(buf) whenever a buffer can end inside an arm; newline bytes update line/offset bookkeeping; reader loops rebase the newline offset by the consumed length. Column arithmetic beyond these facts is not decided.",
+ "Trusted: as C01.",
+ "static analysis: cursor tracking (off0+c+K) in the arm interpreter; product synchrony with the reference for 'first dead byte'; dominance rules on reader loops",
+ "DESIGN.md §3 Engine A, §4 C09")
